@@ -328,7 +328,8 @@ class Run:
                         return ('P', g, 0)
                 if inner.get('k') == 'str':
                     name = ('S', id(inner))
-                    self.bufs[name] = list(inner['b']) + [0]
+                    if name not in self.bufs:
+                        self.bufs[name] = [wrap(b, {'bits': 8, 'sg': True}) for b in inner['b']] + [0]
                     return ('P', name, 0)
                 return self.val(e['e'])
             v = self.val(e['e'])
@@ -360,6 +361,11 @@ class Run:
             if ('O', e['id']) in self.bufs:
                 return ('P', ('O', e['id']), 0)
             raise Unsupported('variable %s' % e.get('n'))
+        if k == 'mem' and strip_lv(e.get('b') or {'k': 'this'}).get('k') != 'this':
+            base = self.val(e['b'])
+            if isinstance(base, dict) and e.get('f') in base:
+                return base[e['f']]
+            raise Unsupported('member `%s` of a value that is not a modelled record' % pe(e))
         if k == 'mem':
             return self.get(self.lv(e))
         if k == 'this':
@@ -443,6 +449,23 @@ class Run:
             return wrap(self.arith(op, a, b, e), T(self.f, e.get('t')))
         if k == 'call':
             return self.call(e)
+        if k == 'initlist':
+            # aggregate initialiser of a plain struct: a record value {field: value}
+            rec = self.prog.records.get(T(self.f, e.get('t')).get('rec') or '')
+            items = e.get('items', [])
+            if rec is None or len(items) > len(rec.get('fields', [])):
+                raise Unsupported('initialiser list `%s`' % pe(e))
+            out = {}
+            for fld, it in zip(rec['fields'], items):
+                out[fld['n']] = self.val(it)
+            for fld in rec['fields'][len(items):]:
+                out[fld['n']] = 0
+            return out
+        if k == 'str':
+            name = ('S', id(e))
+            if name not in self.bufs:
+                self.bufs[name] = [wrap(b, {'bits': 8, 'sg': True}) for b in e['b']] + [0]
+            return ('P', name, 0)
         if k == 'sizeof':
             if 'cv' in e:
                 return e['cv']
